@@ -487,7 +487,39 @@ func CanonResult(v any) any {
 	return v
 }
 
-func Equal(a, b any) bool { return js(a) == js(b) }
+func Equal(a, b any) bool { return js(pruneEmpty(a)) == js(pruneEmpty(b)) }
+
+// pruneEmpty drops members whose value is an empty list or an empty object, at every depth: an
+// absent and an empty repeated field or map are the same content (the shrinker produces such shapes
+// when it empties a list, and canonical results never carry them).
+func pruneEmpty(v any) any {
+	switch x := v.(type) {
+	case M:
+		out := M{}
+		for k, e := range x {
+			p := pruneEmpty(e)
+			switch y := p.(type) {
+			case []any:
+				if len(y) == 0 {
+					continue
+				}
+			case M:
+				if len(y) == 0 {
+					continue
+				}
+			}
+			out[k] = p
+		}
+		return out
+	case []any:
+		out := make([]any, 0, len(x))
+		for _, e := range x {
+			out = append(out, pruneEmpty(e))
+		}
+		return out
+	}
+	return v
+}
 
 // unused import guard
 var _ = time.Now
